@@ -238,6 +238,13 @@ def gen_c09(rng, tier):
     nports = rng.randint(0 if rng.random() < 0.2 else 1, 3)
     ports = [(rng.choice(srcs), 0) for _ in range(nports)]
     body = gen_body(rng, nports, tier, style="selfdriven" if nports == 0 else None)
+    if nports and rng.random() < 0.06:
+        # KF-sampled-at-root-start-C09: a node with an explicit EMPTY validity gate on a bound, active input
+        cand = [b for b in body if any(r[0][0] == "x" and r[1] for r in b["ins"])]
+        if cand:
+            b = rng.choice(cand)
+            b["vmode"] = 1
+            b["ins"] = [(r[0], r[1], 0) for r in b["ins"]]
     # inlined
     base, _ = place_body(P, 0, body, ports)
     r = recorder(P, 0, base + len(body) - 1)
@@ -257,7 +264,12 @@ def gen_c09(rng, tier):
         child = P.graphs[0][tgt]["nest"][0]
         src = P.graphs[0][srcs[0]]
         k = rng.choice([k for k in src["scripts"] if k >= 0])
-        src["scripts"][k] = src["scripts"][k] + [[9, tgt, rng.randrange(len(P.graphs[child]))]]
+        inner = P.graphs[child][0]
+        if inner["kind"] == 1 and rng.random() < 0.6:
+            # the grandchild (depth >= 2): clamped against the idle middle graph's clock only (KF-stale-clamp-depth2-C09)
+            src["scripts"][k] = src["scripts"][k] + [[12, tgt, rng.randrange(len(P.graphs[inner["nest"][0]]))]]
+        else:
+            src["scripts"][k] = src["scripts"][k] + [[9, tgt, rng.randrange(len(P.graphs[child]))]]
         # an out-of-band schedule has no inlined counterpart: that variant leaves the equality group
         P.hints = [h for h in P.hints if not (h[0] == 7 and h[3] == tgt + 1)]
     return P.lines()
@@ -778,10 +790,64 @@ def oracle_counts(pc, run, fails):
             fails.append(("pause_not_resumed", "node (%d,%d) paused the cycle %d %d time(s) but its run did not complete in that cycle" % (g, i, t, c)))
 
 
+def oracle_pokes(pc, run, fails):
+    """An out-of-band schedule_node(b, graph.evaluation_time()) on a child graph, issued while the owner of that graph
+    has not yet been evaluated in this cycle, evaluates node b in this cycle."""
+    evald = set((l[1], l[2], l[3]) for l in run if l[0] == 11)
+    last_cycle = {}
+    stale = []
+    for l in run:
+        if l[0] == 10:
+            last_cycle.setdefault(l[1], []).append(l[2])
+        if l[0] != 12:
+            continue
+        g, i, t, k = l[1], l[2], l[3], l[4]
+        for (code, a, b) in script_for(pc["scripts"], g, i, k):
+            if code in (8, 11):
+                break
+            if code not in (9, 12) or (g, a) not in pc["nest"] or a <= i:
+                continue
+            child = pc["nest"][(g, a)][0]
+            target, mid = child, None
+            if code == 12:
+                if (child, 0) not in pc["nest"]:
+                    continue
+                mid, target = child, pc["nest"][(child, 0)][0]
+            if (target, b) not in pc["nodes"] or (g, a, t) not in evald or (target, b, t) in evald:
+                continue
+            if not any(l2[0] == 10 and l2[1] == target for l2 in run):
+                continue
+            if code == 12 and not any(x == t for x in last_cycle.get(mid, [])[:-1]):
+                stale.append(((target, b), t))
+                fails.append(("stale_clamp_depth2", "node (%d,%d) poked at %d through the idle graph %d (clock behind the root): its owners ran "
+                              "but it was not evaluated" % (target, b, t, mid)))
+            else:
+                fails.append(("poke_lost", "node (%d,%d) poked at %d was not evaluated in that cycle although its owner (%d,%d) was" % (target, b, t, g, a)))
+    return stale
+
+
+def sampled_at_start(pc, run):
+    """graphs in which a node with an EMPTY validity gate on a bound active input was evaluated in the start cycle"""
+    res = set()
+    for (g, i), n in pc["nodes"].items():
+        if g != 0 and n["vmode"] == 1 and not any(s[3] for s in n["ins"]) and any(s[0] < 0 and s[2] for s in n["ins"]):
+            if any(l[0] == 11 and (l[1], l[2], l[3]) == (g, i, pc["start"]) for l in run):
+                res.add(g)
+    return res
+
+
 def oracle_c09(pc, run, fails):
     oracle_counts(pc, run, fails)
+    stale = oracle_pokes(pc, run, fails)
     oracle_clocks(pc, run, fails)
-    oracle_timers(pc, run, fails, aborted_ok=False)
+
+    def timer_kind(key, t):
+        # the stale slot written by a stale-clamped poke replaces the node's (or its owner's) pending slot
+        for (nb, tp) in stale:
+            if tp <= t and (key == nb or (nb in pc["nest"] and key[0] in graphs_under(pc, nb))):
+                return "stale_clamp_depth2"
+        return "wake_lost"
+    oracle_timers(pc, run, fails, aborted_ok=False, kind_fn=timer_kind)
     oracle_reads(pc, run, fails)
     for grp, members in sorted(pc["groups"].items()):
         ref = rec_stream(run, *members[0])
@@ -789,8 +855,14 @@ def oracle_c09(pc, run, fails):
             st = rec_stream(run, *m)
             if st != ref:
                 k = next((x for x in range(max(len(st), len(ref))) if x >= len(st) or x >= len(ref) or st[x] != ref[x]), 0)
-                fails.append(("nested_differs", "recorder %s (nested variant) differs from recorder %s (inlined) at element %d: %s vs %s"
-                              % (m, members[0], k, st[k:k + 1], ref[k:k + 1])))
+                owner = (m[0], pc["nodes"][m]["ins"][0][0])
+                if owner in pc["nest"] and (graphs_under(pc, owner) & sampled_at_start(pc, run)):
+                    fails.append(("sampled_at_root_start_nested_only", "recorder %s: the nested variant %s ran a node with an empty validity gate "
+                                  "in the start cycle (schedule_sampled_input_consumers); the inlined form has no such evaluation; streams "
+                                  "differ from element %d: %s vs %s" % (m, owner, k, st[k:k + 1], ref[k:k + 1])))
+                else:
+                    fails.append(("nested_differs", "recorder %s (nested variant) differs from recorder %s (inlined) at element %d: %s vs %s"
+                                  % (m, members[0], k, st[k:k + 1], ref[k:k + 1])))
             ph = rec_phantoms(run, *m)
             if ph and not rec_phantoms(run, *members[0]):
                 # The known shape (KF-phantom-tick-forwarding-rebind-C09): the recorder reads a nested node whose
@@ -997,7 +1069,7 @@ PROP_KINDS = {
     "C02": {"wake_lost", "wake_lost_after_captured_error", "child_early", "child_clock_ahead", "build_error"},
     "C09": {"nested_differs", "child_early", "child_clock_ahead", "child_outside_owner", "cycle_order", "node_outside_cycle",
             "wake_lost", "stale_read", "run_stopped", "trace_shape", "build_error", "phantom_tick_forwarding_rebind", "phantom_tick",
-            "evaluated_twice", "pause_not_resumed"},
+            "evaluated_twice", "pause_not_resumed", "poke_lost", "stale_clamp_depth2", "sampled_at_root_start_nested_only"},
     "C15": {"run_stopped", "uncaptured_swallowed", "error_tick_missing", "error_tick_twice", "error_message", "error_tick_spurious",
             "error_tick_secondary", "lost_tick_after_captured_error", "not_evaluated", "interference", "clean_run_failed",
             "child_early", "wake_lost", "build_error", "wake_lost_after_captured_error", "tick_swallowed_after_captured_error"},
